@@ -453,6 +453,27 @@ class SoftEOS(BagEOS):
         return 12 * T ** 2 * self._G(T) + 32 * self.c * s * T ** 2 / (1 + s) ** 3
 
 
+class ScaledEOS(BagEOS):
+    """The equation of state `base` written in other units: p(T) = s^4 p_base(T / s) (temperatures multiplied by s), same physics."""
+
+    def __init__(self, base, s):
+        self.base, self.s = base, float(s)
+        self.Tnucl = base.Tnucl * self.s
+        from types import SimpleNamespace
+
+        def rng(fe):
+            return SimpleNamespace(minPossibleTemperature=[fe.minPossibleTemperature[0] * self.s, fe.minPossibleTemperature[1]],
+                                   maxPossibleTemperature=[fe.maxPossibleTemperature[0] * self.s, fe.maxPossibleTemperature[1]])
+        self.freeEnergyHigh, self.freeEnergyLow = rng(base.freeEnergyHigh), rng(base.freeEnergyLow)
+
+    def pHighT(self, T): return self.s ** 4 * self.base.pHighT(T / self.s)
+    def dpHighT(self, T): return self.s ** 3 * self.base.dpHighT(T / self.s)
+    def ddpHighT(self, T): return self.s ** 2 * self.base.ddpHighT(T / self.s)
+    def pLowT(self, T): return self.s ** 4 * self.base.pLowT(T / self.s)
+    def dpLowT(self, T): return self.s ** 3 * self.base.dpLowT(T / self.s)
+    def ddpLowT(self, T): return self.s ** 2 * self.base.ddpLowT(T / self.s)
+
+
 def template_from(alN, psiN, cb2, cs2, Tn=1.0, ap=3.0):
     """BagEOS (template form) with prescribed transition strength alpha_n, enthalpy ratio psi_n and sound speeds (cb2 broken, cs2 symmetric)."""
     from scipy.optimize import brentq
